@@ -622,6 +622,36 @@ def _generate(api):
         inits.append((m.group(1), int(v) if re.match(r"^\d+$", v) else -1))
     idx_fields = [f for f in structs.get('Cache', {}) if f.endswith('_index')]
 
+    # ---------------------------------------------------------------- every mention of a hash type is accounted for
+    mentions = []   # (file, kind, text, line)
+    ctor_lines = set((a, ln) for a, _, _, _, ln in ctor_sites)
+    name_re = re.compile(r"\b(%s)\b" % '|'.join(map(re.escape, hash_names)))
+    for fi in infos:
+        lines = fi.code.split('\n')
+        rawlines = raw[fi.rel].split('\n')
+        for ln0, text in enumerate(lines):
+            if not name_re.search(text):
+                continue
+            ln = ln0 + 1
+            t = text.strip()
+            if re.match(r"(pub\s+)?use\b", t):
+                kind = 'use'
+            elif re.match(r"(pub(\([^)]*\))?\s+)?type\s+\w+", t):
+                kind = 'alias'
+            elif re.search(r"->[^{;]*\b(%s)\b" % '|'.join(map(re.escape, hash_names)), t):
+                kind = 'fn_result'
+            elif re.search(r"\blet\s+(mut\s+)?\w+\s*:\s*[^=]*\b(%s)\b" % '|'.join(map(re.escape, hash_names)), t):
+                kind = 'let_annot'
+            elif re.match(r"(pub(\([^)]*\))?\s+)?(mut\s+)?\w+\s*:\s*&?\s*('\w+\s+)?(mut\s+)?(std::collections::)?(%s)\b[^=]*,?$"
+                          % '|'.join(map(re.escape, hash_names)), t):
+                f = fi.enclosing_fn(fi.line_starts[ln0])
+                kind = 'param' if (f and fi.line_starts[ln0] < f[2]) else 'field'
+            elif (fi.rel, ln) in ctor_lines:
+                kind = 'ctor'
+            else:
+                kind = 'other'
+            mentions.append((fi.rel, kind, rawlines[ln0].strip(), ln))
+
     # ---------------------------------------------------------------- emit
     L = [api.HEADER,
          "From Coq Require Import String ZArith List Bool.\nImport ListNotations.\nLocal Open Scope string_scope.\n",
@@ -654,6 +684,9 @@ def _generate(api):
     emit_list('c06_hasher_sites', 'hasher_site',
               ["{| hh_file := %s; hh_fn := %s; hh_type := %s; hh_method := %s; hh_line := %d |}"
                % (coq_str(a), coq_str(b), coq_str(c), coq_str(d), ln) for a, b, c, d, ln in hasher_sites])
+    emit_list('c06_hash_mentions', 'ssite',
+              ["{| ss_file := %s; ss_fn := %s; ss_kind := %s; ss_text := %s; ss_line := %d |}"
+               % (coq_str(a), coq_str(''), coq_str(k), coq_str(t[:160]), ln) for a, k, t, ln in mentions])
     emit_list('c06_forbid_unsafe', '(string * bool)',
               ["(%s, %s)" % (coq_str(a), 'true' if b else 'false') for a, b in forbid])
     emit_list('c06_cache_new_sites', '(string * string)', ["(%s, %s)" % (coq_str(a), coq_str(b)) for a, b, _ in cache_new])
